@@ -11,8 +11,9 @@ from collections import Counter
 
 VERIF_DIR = os.path.dirname(os.path.dirname(os.path.abspath(__file__)))
 REPO_DIR = os.environ.get('HPL_REPO_DIR', '/repo')
-EVIDENCE_DIR = os.path.join(VERIF_DIR, 'evidence')
-REPLAY_DIR = os.path.join(VERIF_DIR, 'replays')
+_SCRATCH = os.path.realpath(REPO_DIR) != '/repo'  # a run against a scratch copy (seeded change, old tree) is not evidence
+EVIDENCE_DIR = os.environ.get('VERIF_EVIDENCE_DIR') or (os.path.join('/tmp', 'hplverif-scratch', 'evidence') if _SCRATCH else os.path.join(VERIF_DIR, 'evidence'))
+REPLAY_DIR = os.environ.get('VERIF_REPLAY_DIR') or (os.path.join('/tmp', 'hplverif-scratch', 'replays') if _SCRATCH else os.path.join(VERIF_DIR, 'replays'))
 REGRESSION_DIR = os.path.join(VERIF_DIR, 'regressions')
 KNOWN_FINDINGS = os.path.join(VERIF_DIR, 'known_findings.json')
 GUARD = 'HPL_SPECS_VERIF'
